@@ -66,6 +66,28 @@ example : sortTxs ⟨true, true, true, true, true, true⟩
     = (castBlock Orders.id ⟨99, 1, fun _ _ s => ⟨s, false, [], 0, [], false⟩⟩ ⟨true, true, true, true, true, true⟩
         { height := 5, p004Block := 1 } (fun _ => none) [] St.empty [txA, txB] 1).2 := by decide
 
+
+/-! ### the hypothesis `hsorted` is needed (and is the pool's job, not the executor's) -/
+
+def csEnv : Env := ⟨99, 0, fun _ _ s => ⟨s, false, [], 0, [], false⟩⟩
+def csFlags : Flags := ⟨true, true, true, true, true, true⟩
+def csSt : St := { St.empty with bal := fun a => if a = 1 then 10 else 0 }
+/-- two transfers of one source, nonces 0 and 1; only the first one executed can be paid -/
+def csTx0 : Tx := ⟨7, 0, 0, 100, [49], 1, 1, 1, .transfer [⟨[50], 2, .val 8⟩]⟩
+def csTx1 : Tx := ⟨9, 0, 1, 100, [49], 1, 1, 1, .transfer [⟨[51], 3, .val 5⟩]⟩
+
+/-- The proposer does not sort in casting mode.  Handed the two transactions in the order
+    [nonce 1, nonce 0] it executes them in that order, while a verifier of the packed list sorts it to
+    [nonce 0, nonce 1]: the receipts differ.  So `cast_cutoff_consistent` really needs the pool to
+    deliver the list in execution order (C17's ordering claim); the executor itself does not enforce it.
+    (The hooked searcher runs the reversed order against the real executor and reports how often the
+    two disagree — `cast-unsorted-disagree` in the evidence — as a documented quirk, not a violation.) -/
+theorem cast_unsorted_counterexample :
+    ((castBlock Orders.id csEnv csFlags { height := 5, p004Block := 1 } (fun _ => none) [] csSt [csTx1, csTx0] 2).1.receipts.map (fun r => (r.hash, r.failed)))
+      ≠ ((execBlock Orders.id csEnv csFlags { height := 5, p004Block := 1 } (fun _ => none) [] csSt
+          (castBlock Orders.id csEnv csFlags { height := 5, p004Block := 1 } (fun _ => none) [] csSt [csTx1, csTx0] 2).2).receipts.map (fun r => (r.hash, r.failed))) := by
+  decide
+
 /-- BLOCKHASH never asks the node's chain index about the height being executed or above: the
     admissible arguments are ancestors, which all replicas executing on this parent share -/
 theorem blockhash_reads_only_ancestors (n cur : Nat) (h : blockhashAsksChain n cur = true) : n < cur := by
